@@ -2,6 +2,8 @@
 """Systematic memory-ordering sweep: every non-Relaxed ordering argument in src/signal.rs and src/mutex.rs is
 weakened to Relaxed (one at a time) and every fence(Acquire) line is removed (one at a time); C07 and C17 (quick,
 reduced runs) say whether the hole is seen. Applies edits to /repo transiently."""
+import os as _os
+_os.environ["VERIF_NO_EVIDENCE"]="1"
 import subprocess, re, json, sys
 def sh(c): return subprocess.run(c, shell=True, capture_output=True, text=True)
 assert sh("git -C /repo status --porcelain").stdout.strip()==""
